@@ -36,12 +36,13 @@ CONSTANTS
   KernelSet = {{"sum"}}
   ObservedByValueCount = {obv}
   Diag = {diag}
+  PosMaskAsSet = {pset}
 INVARIANT TraceInv
 """
 
 
-def trace_cfg(obv="FALSE", diag="FALSE", inv=True):
-    s = TRACE_CFG.format(obv=obv, diag=diag)
+def trace_cfg(obv="FALSE", diag="FALSE", inv=True, pset="FALSE"):
+    s = TRACE_CFG.format(obv=obv, diag=diag, pset=pset)
     return s if inv else s.replace("INVARIANT TraceInv\n", "")
 
 
